@@ -193,7 +193,7 @@ def outside (cfg : ScanCfg) (s : Scanner) (tok : Tok) : Scanner :=
   else s
 
 def isSkipped (cfg : ScanCfg) (tok : Tok) : Bool :=
-  tok.text == ['-'] || tok.text.all cfg.cc.isWhitespace
+  !tok.nan && (tok.text == ['-'] || tok.text.all cfg.cc.isWhitespace)
 
 /-- the word handed to the parser: the lowercase text, or `","` (a forced stop that does not lose
 the token) when the token declares itself unrelated to its predecessor while a number is open -/
@@ -217,7 +217,8 @@ def pushRejected (cfg : ScanCfg) (s : Scanner) (pos : Nat) (tok : Tok) : Except 
       -- the end of that match may be the start of another
       let (r2, p2) := s1.parser.push cfg.lang tok.lower
       let s2 := { s1 with parser := p2 }
-      let s3 := if r2.isNone then { s2 with tracker := s2.tracker.advanced pos } else s2.outside cfg tok
+      let s3 := if r2.isNone then { s2 with tracker := s2.tracker.advanced pos }
+                else if r2 == some .incomplete then s2 else s2.outside cfg tok
       .ok { s3 with previous := some tok }
   else .ok { (s.outside cfg tok) with previous := some tok }
 
